@@ -4,6 +4,7 @@
 Run with PYTHONPATH=/repo.  Writes lean/BqlVerif/Generated/*.lean (only when the
 content changed) and returns the same facts as a JSON-able dict.
 """
+import dataclasses
 import datetime
 import decimal
 import json
@@ -197,15 +198,100 @@ def collect():
     facts['formats'] = sorted(shell.FORMATS) if hasattr(shell, 'FORMATS') else []
 
     # ---- BALANCES / JOURNAL templates -----------------------------------
-    tmpl = {}
+    tmpl = _Templates()
     for sf in (None, 'units', 'cost'):
-        b = compiler.transform_balances(ast.Balances(sf, None, None))
-        tmpl['balances:%s' % sf] = b.tosexp()
+        tmpl.add('balances:%s' % sf, compiler.transform_balances(ast.Balances(sf, None, None)))
         for acc in (None, 'Assets'):
-            j = compiler.transform_journal(ast.Journal(acc, sf, None))
-            tmpl['journal:%s:%s' % (acc, sf)] = j.tosexp()
+            tmpl.add('journal:%s:%s' % (acc, sf), compiler.transform_journal(ast.Journal(acc, sf, None)))
+    # the FROM and WHERE clauses of the statement are carried over as they are: sentinel clauses
+    frm = ast.From(ast.Column('vp_from'), None, True, True)
+    whr = ast.Column('vp_where')
+    for sf in (None, 'units', 'cost'):
+        tmpl.add('balances:%s:from:where' % sf, compiler.transform_balances(ast.Balances(sf, frm, whr)))
+        tmpl.add('balances:%s:from' % sf, compiler.transform_balances(ast.Balances(sf, frm, None)))
+        tmpl.add('balances:%s:where' % sf, compiler.transform_balances(ast.Balances(sf, None, whr)))
+        for acc in (None, 'Assets'):
+            tmpl.add('journal:%s:%s:from' % (acc, sf), compiler.transform_journal(ast.Journal(acc, sf, frm)))
     facts['templates'] = tmpl
     return facts
+
+
+def to_doc(value):
+    """the structure `ast.tosexp` prints: ('node', name, [(field, doc)]) | ('list', [doc]) | ('atom', text)"""
+    import enum
+    from beanquery.parser import ast as bqlast
+    if isinstance(value, bqlast.Node):
+        fields = [(f.name.replace('_', '-'), to_doc(getattr(value, f.name))) for f in dataclasses.fields(value)
+                  if f.repr and getattr(value, f.name) is not None]
+        return ('node', value.__class__.__name__.lower(), fields)
+    if isinstance(value, list):
+        return ('list', [to_doc(i) for i in value])
+    if isinstance(value, enum.Enum):
+        return ('atom', value.name.lower())
+    return ('atom', repr(value))
+
+
+def doc_lines(doc):
+    """`Doc.lines` of lean/BqlVerif/Model/Templates.lean, line by line"""
+    def indent(ls):
+        return [l if l == '' else '  ' + l for l in ls]
+
+    def close_last(ls):
+        return ls[:-1] + [ls[-1] + ')'] if ls else [')']
+    kind = doc[0]
+    if kind == 'atom':
+        return [doc[1]]
+    if kind == 'node':
+        body = []
+        for name, d in doc[2]:
+            ls = doc_lines(d)
+            body += [name + ': ' + ls[0]] + ls[1:] if ls else [name + ': ']
+        return ['(' + doc[1]] + close_last(indent(body)) if body else ['(' + doc[1], ')']
+    body = []
+    for d in doc[1]:
+        body += doc_lines(d)
+    return ['('] + close_last(indent(body))
+
+
+class _Templates(dict):
+    """key -> `tosexp` text (the fact that is compared with the golden copy); `.docs` keeps the tree each text was
+    printed from, after checking that the tree, printed by the model's algorithm, IS the text `tosexp` produced"""
+
+    def __init__(self):
+        super().__init__()
+        self.docs = {}
+        self.mismatch = []
+
+    def add(self, key, node):
+        text = node.tosexp()
+        doc = to_doc(node)
+        if '\n'.join(doc_lines(doc)) != text:
+            self.mismatch.append(key)
+        self[key] = text
+        self.docs[key] = doc
+
+
+def lean_doc(doc):
+    if doc[0] == 'atom':
+        return '(.atom %s)' % lean_str(doc[1])
+    if doc[0] == 'list':
+        return '(.list [%s])' % ', '.join(lean_doc(d) for d in doc[1])
+    return '(.node %s [%s])' % (lean_str(doc[1]), ', '.join('(%s, %s)' % (lean_str(n), lean_doc(d)) for n, d in doc[2]))
+
+
+def render_templates(facts):
+    lines = ['-- GENERATED by harness/gen_tables.py from the live transform_balances / transform_journal. Do not edit.',
+             'import BqlVerif.Model.Templates', 'namespace Bql.Gen', '',
+             '/-- (configuration, the SELECT the live transform returns, as the tree `ast.tosexp` prints) -/',
+             'def templates : List (String × Doc) := [']
+    lines.append(',\n'.join('  (%s, %s)' % (lean_str(k), lean_doc(d)) for k, d in facts['templates'].docs.items()))
+    lines.append(']')
+    lines.append('')
+    lines.append('/-- every tree above, printed by the algorithm of `Doc.lines`, is the text the live `tosexp` returned -/')
+    lines.append('def templateTreesPrint : Bool := %s' % ('true' if not facts['templates'].mismatch else 'false'))
+    lines.append('')
+    lines.append('end Bql.Gen')
+    return '\n'.join(lines) + '\n'
 
 
 def render_registry(facts):
@@ -278,10 +364,6 @@ def render_columns(facts):
                             for s in facts['settings']))
     lines.append(']')
     lines.append('')
-    lines.append('def templates : List (String × String) := [')
-    lines.append(',\n'.join('  (%s, %s)' % (lean_str(k), lean_str(v)) for k, v in facts['templates'].items()))
-    lines.append(']')
-    lines.append('')
     lines.append('end Bql.Gen')
     return '\n'.join(lines) + '\n'
 
@@ -306,6 +388,8 @@ def generate():
         changed.append('Registry.lean')
     if write_if_changed(os.path.join(GEN_DIR, 'Columns.lean'), render_columns(facts)):
         changed.append('Columns.lean')
+    if write_if_changed(os.path.join(GEN_DIR, 'Templates.lean'), render_templates(facts)):
+        changed.append('Templates.lean')
     return facts, changed
 
 
